@@ -383,6 +383,8 @@ pub enum Freq {
     Half(u16),
     /// m/8, m in 1..8
     Dyadic(u8),
+    /// j/n with j = 1 + idx(sel, n); only used where n*(j/n) == j exactly in f64 (see `exact`)
+    Ratio(u16),
 }
 
 impl Freq {
@@ -392,6 +394,7 @@ impl Freq {
             Freq::One => 1.0,
             Freq::Half(s) => ((1 + crate::gen::idx(*s, n)) as f64 - 0.5) / n as f64,
             Freq::Dyadic(m) => (*m as f64) / 8.0,
+            Freq::Ratio(s) => (1 + crate::gen::idx(*s, n)) as f64 / n as f64,
         }
     }
     /// ceil(f*n)
@@ -401,6 +404,7 @@ impl Freq {
             Freq::One => n,
             Freq::Half(s) => 1 + crate::gen::idx(*s, n),
             Freq::Dyadic(m) => (n * (*m as usize) + 7) / 8,
+            Freq::Ratio(s) => 1 + crate::gen::idx(*s, n),
         }
     }
     /// is f*n an exact integer (then floor == ceil, needed for `ska weed`)
@@ -409,6 +413,12 @@ impl Freq {
             Freq::Zero | Freq::One => true,
             Freq::Half(_) => false,
             Freq::Dyadic(m) => (n * (*m as usize)) % 8 == 0,
+            Freq::Ratio(s) => {
+                let j = (1 + crate::gen::idx(*s, n)) as f64;
+                // the same f64 arithmetic ska performs, after the decimal round trip of the argument
+                let f: f64 = format!("{}", j / n as f64).parse().unwrap();
+                n as f64 * f == j
+            }
         }
     }
     pub fn arg(&self, n: usize) -> String {
